@@ -534,7 +534,11 @@ def specs(prop, tier):
         out.append(("restart[M7;j=2;chain]", c10_restart, dict(name="M7", j=2, chain=True, T=6)))
         out.append(("restart[M8;j=2]", c10_restart, dict(name="M8", j=2)))
         out.append(("restart[M12;j=2;programs]", c10_restart, dict(name="M12", j=2, with_programs=True)))
-        out.append(("restart[M12;j=0;programs]", c10_restart, dict(name="M12", j=0, with_programs=True)))
+        if not q:
+            # restarting at or before the program start year builds syntactically different (semantically equal) terms for the
+            # first program step: these equalities need the nonlinear solver (1-3 minutes), hence thorough only
+            out.append(("restart[M12;j=1;programs]", c10_restart, dict(name="M12", j=1, with_programs=True)))
+            out.append(("restart[M12;j=0;programs]", c10_restart, dict(name="M12", j=0, with_programs=True)))
         if not q:
             out.append(("restart[M7;j=1;2 pops;transfer]", c10_restart, dict(name="M7", j=1, pops=2, transfers=1)))
             out.append(("restart[M8;j=3;chain]", c10_restart, dict(name="M8", j=3, chain=True, T=7)))
@@ -559,7 +563,7 @@ def groups(prop, tier):
         body = fac(**kw)
 
         def g(tier_, seed, _b=body, _nm=nm, _kw=kw):
-            return run_body(_b, _nm, tier_, seed, functions=_funcs(), bounds=dict(_kw, dt=0.25), stubs=STUBS, timeout_ms=60000, max_paths=200)
+            return run_body(_b, _nm, tier_, seed, functions=_funcs(), bounds=dict(_kw, dt=0.25), stubs=STUBS, timeout_ms=60000 if tier_ == "quick" else 300000, max_paths=200)
 
         g.__name__ = nm
         gs.append(g)
